@@ -11,6 +11,11 @@ import numpy as np
 TOL = 2e-5
 # always run: a configuration on which the listed known finding (overtaken message) shows, so that the check reports it on every run
 PINNED = json.loads('''[{"nodes": [{"name": "n0", "rate": 5.0, "comp": 0.004, "comp_std": 0.0}, {"name": "n1", "rate": 2.0, "comp": 0.004, "comp_std": 0.02}, {"name": "n2", "rate": 5.0, "comp": 0.004, "comp_std": 0.02}, {"name": "n3", "rate": 10.0, "comp": 0.0, "comp_std": 0.002}], "conns": [{"src": 0, "dst": 1, "skip": false, "window": 2, "comm": 0.1, "comm_std": 0.001, "trainable": false}, {"src": 0, "dst": 2, "skip": false, "window": 3, "comm": 0.02, "comm_std": 0.15, "trainable": false}, {"src": 0, "dst": 3, "skip": false, "window": 3, "comm": 0.1, "comm_std": 0.001, "trainable": false}, {"src": 1, "dst": 0, "skip": true, "window": 2, "comm": 0.02, "comm_std": 0.001, "trainable": false}, {"src": 1, "dst": 2, "skip": false, "window": 3, "comm": 0.1, "comm_std": 0.0, "trainable": false}, {"src": 1, "dst": 3, "skip": true, "window": 1, "comm": 0.0, "comm_std": 0.0, "trainable": false}, {"src": 2, "dst": 1, "skip": true, "window": 3, "comm": 0.003, "comm_std": 0.03, "trainable": false}, {"src": 3, "dst": 1, "skip": true, "window": 2, "comm": 0.1, "comm_std": 0.15, "trainable": false}], "ts_max": 2.3, "episodes": 1, "key": 3881, "augment": false}]''')
+# an augmentation whose nodes do not declare a connection (n0 -> n1) that the existing graph already holds
+PINNED_AUGMENT = [dict(nodes=[dict(name="n0", rate=5.0, comp=0.004, comp_std=0.0), dict(name="n1", rate=10.0, comp=0.02, comp_std=0.002), dict(name="n2", rate=2.0, comp=0.0, comp_std=0.0)],
+                       conns=[dict(src=0, dst=1, skip=False, window=2, comm=0.003, comm_std=0.001, trainable=False), dict(src=1, dst=0, skip=True, window=1, comm=0.02, comm_std=0.0, trainable=False),
+                              dict(src=0, dst=2, skip=False, window=1, comm=0.0, comm_std=0.0, trainable=False)],
+                       ts_max=1.0, episodes=2, key=77, augment=True, undeclared=0)]
 
 
 def make_case(rng):
@@ -26,6 +31,10 @@ def make_case(rng):
                 conns.append(dict(src=i, dst=j, skip=bool(back or rng.rand() < 0.2), window=int(rng.randint(1, 4)), comm=float(rng.choice([0.0, 0.003, 0.02, 0.1])),
                                   comm_std=float(rng.choice([0.0, 0.0, 0.001, 0.03, 0.15])), trainable=bool(rng.rand() < 0.15)))
     case = dict(nodes=nodes, conns=conns, ts_max=float(rng.choice([0.5, 1.0, 2.3])), episodes=int(rng.randint(1, 4)), key=int(rng.randint(0, 10000)), augment=bool(rng.rand() < 0.35))
+    if case["augment"] and rng.rand() < 0.5:
+        inside = [ci for ci, c in enumerate(conns) if c["src"] < max(1, n - 1) and c["dst"] < max(1, n - 1)]
+        if inside:
+            case["undeclared"] = int(inside[rng.randint(len(inside))])
     if rng.rand() < 0.3:
         # exact ties: zero delays, commensurate rates, a horizon that is a multiple of every period - arrivals coincide with step starts (also on the very last step)
         for nd in case["nodes"]:
@@ -36,7 +45,7 @@ def make_case(rng):
     return case
 
 
-def build(case, subset=None):
+def build(case, subset=None, drop=()):
     import distrax
     from rex.base import StaticDist, TrainableDist
     from rex.node import BaseNode
@@ -47,8 +56,8 @@ def build(case, subset=None):
     for nd in case["nodes"]:
         dist = distrax.Normal(loc=nd["comp"], scale=nd["comp_std"]) if nd["comp_std"] > 0 else distrax.Deterministic(loc=nd["comp"])
         objs.append(Nd(nd["name"], rate=nd["rate"], delay_dist=StaticDist.create(dist)))
-    for c in case["conns"]:
-        if subset is not None and not (c["src"] in subset and c["dst"] in subset):
+    for ci, c in enumerate(case["conns"]):
+        if ci in drop or (subset is not None and not (c["src"] in subset and c["dst"] in subset)):
             continue
         if c["trainable"]:
             dd = TrainableDist.create(delay=c["comm"] + 0.01, min=c["comm"], max=c["comm"] + 0.05)
@@ -59,7 +68,7 @@ def build(case, subset=None):
     return {o.name: o for o in objs if o.name in names}
 
 
-def check_graph(case, nodes, G, ts_max, bad):
+def check_graph(case, nodes, G, ts_max, bad, phase_nodes=None):
     """G: one episode (numpy arrays)"""
     checks = 0
     for name, nd in nodes.items():
@@ -73,8 +82,11 @@ def check_graph(case, nodes, G, ts_max, bad):
             continue
         if k == 0:
             continue
-        if abs(ts[0] - float(nd.phase)) > TOL:
-            bad.append(dict(kind="first-vertex-not-at-phase", what=f"{name}: first start {ts[0]} != phase {float(nd.phase)}"))
+        ph = float((phase_nodes or nodes)[name].phase)      # phases follow the connections as DECLARED by the nodes handed in (an undeclared connection does not shift them)
+        if phase_nodes is not None and name in (case.get("_base_names") or ()):
+            ph = ts[0]                                       # an existing vertex was generated under the full declaration and is compared with the base graph instead
+        if abs(ts[0] - ph) > TOL:
+            bad.append(dict(kind="first-vertex-not-at-phase", what=f"{name}: first start {ts[0]} != phase {ph}"))
         if (np.diff(ts[:k]) < 1.0 / nd.rate - TOL).any():
             bad.append(dict(kind="vertices-closer-than-a-period", what=f"{name}: start spacing {np.diff(ts[:k]).min()} < period {1.0 / nd.rate}"))
         if (te[:k] < ts[:k] - TOL).any():
@@ -137,9 +149,14 @@ def run_case(case):
         keep = set(range(max(1, len(case["nodes"]) - 1)))
         part = build(case, subset=keep)
         base = artificial.generate_graphs(part, ts_max=case["ts_max"], rng=rng, num_episodes=case["episodes"])
+        if case.get("undeclared") is not None:
+            # the nodes handed to augment_graphs do not declare one of the connections the existing graph already holds: that edge has to survive untouched
+            nodes = build(case, drop={case["undeclared"]})
         G = artificial.augment_graphs(base, nodes, rng=jax.random.PRNGKey(case["key"] + 1))
     checks = 0
     want_v, want_e = set(nodes), {(c.output_node.name, n.name) for n in nodes.values() for c in n.inputs.values()}
+    if base is not None:
+        want_v, want_e = want_v | set(base.vertices), want_e | set(base.edges)
     if set(G.vertices) != want_v or set(G.edges) != want_e:
         bad.append(dict(kind="wrong-node-or-connection-set", what=f"vertices {sorted(G.vertices)} edges {sorted(G.edges)}"))
         return bad, 1
@@ -155,7 +172,11 @@ def run_case(case):
     for ep in range(case["episodes"]):
         Ge = jax.tree_util.tree_map(lambda x: np.asarray(x[ep]), G)
         hz = case["ts_max"] if base is None else max(float(np.asarray(v.ts_end)[ep].max()) for v in base.vertices.values())
-        checks += check_graph(case, nodes, Ge, hz, bad)
+        if case.get("undeclared") is not None:
+            # connection parameters of the undeclared edge come from the full declaration
+            checks += check_graph(dict(case, _base_names=sorted(base.vertices)), build(case), Ge, hz, bad, phase_nodes=nodes)
+        else:
+            checks += check_graph(case, nodes, Ge, hz, bad)
         # acyclic: every edge goes forward in time, a non-skipped edge into a step never starts after that step
         for (u, w), e in Ge.edges.items():
             so, si = np.asarray(e.seq_out), np.asarray(e.seq_in)
@@ -193,7 +214,7 @@ def main():
         sys.exit(1 if bad else 0)
     rng = np.random.RandomState(12000 + a.seed)
     t0 = time.time()
-    cases = PINNED + [make_case(rng) for _ in range(a.n)]
+    cases = PINNED + PINNED_AUGMENT + [make_case(rng) for _ in range(a.n)]
     import multiprocessing as mp
     with mp.get_context("spawn").Pool(min(12, a.n)) as pool:
         outs = pool.map(_safe, cases)
